@@ -174,3 +174,50 @@ def tightness(rec):
     if d["add_scp"]:
         t.append(("scp", sum(g(SCP_h)) > 0))
     return tuple(t)
+
+
+REPORTED_SLOTS = {"stored_food_feed": SF_f, "stored_food_biofuels": SF_b, "outdoor_crops_feed": CR_f,
+                  "outdoor_crops_biofuels": CR_b, "scp_feed": SCP_f, "scp_biofuels": SCP_b, "cell_sugar_feed": CS_f,
+                  "cell_sugar_biofuels": CS_b, "seaweed_feed": SW_f, "seaweed_biofuels": SW_b}
+
+
+def audit_reported(rec, rtol=1e-6):
+    """the property is about what is REPORTED: the interpreter's per-source feed / biofuel series (percent people fed
+    each month) must be the solved allocation of that very source, and the reported use of single-cell protein and
+    cellulosic sugar must stay within that month's output.  -> list of (key, what, detail)"""
+    rep = rec.get("reported")
+    if not rep or "capture_error" in rep:
+        return []
+    d, vals = rec["lp_in"], rec["values"]
+    n = d["NM"]
+    out = []
+    to_bk = d["need"] / 100.0            # percent of the monthly need -> billion kcals
+    conv = {}
+    for name, slot in REPORTED_SLOTS.items():
+        r = rep.get(name)
+        if r is None:
+            continue
+        if "percent people fed" not in r["units"]:
+            out.append(("C01:reported-series-units", f"{name} is reported in '{r['units']}'", {"series": name}))
+            continue
+        xs = [x * to_bk for x in r["kcals"]]
+        conv[name] = xs
+        k = d["sw_kcals"] if slot in (SW_f, SW_b) else 1.0
+        sol = [v * k for v in series(vals, slot, n)]
+        scale = 1.0 + max([abs(v) for v in sol] + [abs(v) for v in xs])
+        for m in range(min(n, len(xs))):
+            if abs(xs[m] - sol[m]) > rtol * scale:
+                out.append(("C01:reported-differs-from-solution",
+                            f"{name} month {m}: reported {xs[m]} billion kcals, the solved allocation of that source is {sol[m]}",
+                            {"series": name, "month": m, "reported": xs[m], "solved": sol[m]}))
+                break
+    for tag, f, b, prod in (("scp", "scp_feed", "scp_biofuels", "scp_prod"), ("cs", "cell_sugar_feed", "cell_sugar_biofuels", "cs_prod")):
+        if f in conv and b in conv:
+            for m in range(n):
+                used = conv[f][m] + conv[b][m]
+                if used > d[prod][m] + rtol * (1 + d[prod][m]):
+                    out.append(("C01:reported-use-exceeds-output",
+                                f"{tag} month {m}: reported feed + biofuel {used} exceeds that month's output {d[prod][m]}",
+                                {"food": tag, "month": m, "reported_use": used, "output": d[prod][m]}))
+                    break
+    return out
